@@ -196,7 +196,7 @@ func runAct(c ACase) (map[string]int, error) {
 			for _, k := range append(append([]string{}, actKinds...), "free") {
 				var want []string
 				for id := 0; id < 3; id++ {
-					key := fmt.Sprintf("%s/%d", k, id)
+					key := k + "/" + idStr(id)
 					got := cls[n].GetActiveByID(key)
 					wp := model[key]
 					if (got == nil) != (wp == nil) || (got != nil && !got.Equals(wp)) {
@@ -222,7 +222,7 @@ func runAct(c ACase) (map[string]int, error) {
 		return nil
 	}
 	doActivate := func(what string, via int, kind string, id int, selIdx int, view []int) error {
-		key := fmt.Sprintf("%s/%d", kind, id)
+		key := kind + "/" + idStr(id)
 		var capable []int
 		for _, i := range view {
 			for _, k := range nodeKinds[i] {
@@ -244,7 +244,7 @@ func runAct(c ACase) (map[string]int, error) {
 			chosen = m.ID
 			return m
 		}
-		pid := cls[via].Activate(kind, cluster.NewActivationConfig().WithID(fmt.Sprint(id)).WithSelectMemberFunc(sel))
+		pid := cls[via].Activate(kind, cluster.NewActivationConfig().WithID(idStr(id)).WithSelectMemberFunc(sel))
 		switch {
 		case model[key] != nil:
 			feat["activate-duplicate"]++
@@ -293,7 +293,7 @@ func runAct(c ACase) (map[string]int, error) {
 			return nil, nil
 		}
 		kind := actKinds[op.Kind]
-		key := fmt.Sprintf("%s/%d", kind, op.ID)
+		key := kind + "/" + idStr(op.ID)
 		what := fmt.Sprintf("op %d (%s %s via n%d)", oi, op.K, key, via)
 		switch op.K {
 		case "activate":
@@ -342,11 +342,11 @@ func runAct(c ACase) (map[string]int, error) {
 			delete(model, key)
 			feat["deactivate"]++
 		case "cspawn":
-			key = fmt.Sprintf("free/%d", op.ID)
+			key = "free/" + idStr(op.ID)
 			if model[key] != nil {
 				continue
 			}
-			pid := cls[via].Spawn(func() actor.Receiver { return stubProvider{} }, "free", actor.WithID(fmt.Sprint(op.ID)))
+			pid := cls[via].Spawn(func() actor.Receiver { return stubProvider{} }, "free", actor.WithID(idStr(op.ID)))
 			if pid == nil || pid.Address != addr(via) || pid.ID != key {
 				return nil, fmt.Errorf("%s: Cluster.Spawn returned %v", what, pid)
 			}
@@ -413,7 +413,7 @@ func runAct(c ACase) (map[string]int, error) {
 			probes := 0
 			for id := 0; id < 3 && probes < 3; id++ {
 				for _, k := range nodeKinds[x] {
-					dk := fmt.Sprintf("%s/%d", k, id)
+					dk := k + "/" + idStr(id)
 					if model[dk] == nil {
 						continue
 					}
@@ -421,7 +421,7 @@ func runAct(c ACase) (map[string]int, error) {
 						continue // x does not resolve it (yet): C19 says nothing about this attempt
 					}
 					probes++
-					pid := cls[x].Activate(k, cluster.NewActivationConfig().WithID(fmt.Sprint(id)))
+					pid := cls[x].Activate(k, cluster.NewActivationConfig().WithID(idStr(id)))
 					if pid != nil {
 						return nil, fmt.Errorf("%s: n%d resolves %s to %v, yet Activate(%q, %d) on n%d (whose own member view still lists only itself) returned %v: a second actor with a cluster-wide id",
 							what, x, dk, model[dk], k, id, x, pid)
@@ -555,6 +555,10 @@ func genAct(t *rapid.T) ACase {
 	}
 	return c
 }
+
+// idStr: the three ids of the population; one of them contains the separator that joins kind and id
+// (ids are free-form strings: "lobby/7" is as good an id as "7")
+func idStr(id int) string { return [...]string{"0", "1", "lobby/7"}[((id%3)+3)%3] }
 
 func TestActivations(t *testing.T) {
 	st := vh.Test("TestActivations")
